@@ -46,7 +46,7 @@ TREE_RULE = ('every transition (state, public call, arguments, failing-request i
              'distinct state; after every replayed transition all caller-held roots are deleted and the allocator must be back at balance; non-trivial = the '
              'call changes the heap or the state has a container to query; cases are distinct by construction')
 PLANS['C07'] = {
-    'quick': [tree('O3', 3, 1, 2, '{1}', 'O', 'O'), tree('RS4', 4, 1, 2, '{1}', 'S', 'RS')],
+    'quick': [tree('O3', 3, 1, 2, '{1}', 'O', 'O'), tree('RS4', 4, 1, 2, '{1}', 'S', 'RS'), tree('RC4', 4, 1, 1, '{1}', 'AO', 'RC')],
     'thorough': [tree('O3', 3, 1, 2, '{1}', 'O', 'O'), tree('RS4', 4, 1, 2, '{1}', 'S', 'RS'), tree('R3', 3, 1, 2, '{1}', 'R', 'R'),
                  tree('O3asan', 3, 1, 2, '{1}', 'O', 'O', flavour='asan'), tree('D4', 4, 1, 2, '{1}', 'SA', 'D4')],
     'rule': TREE_RULE, 'assumptions': TREE_ASSUME,
@@ -75,7 +75,7 @@ PLANS['C11'] = {
     'level_note': TREE_NOTE,
 }
 PLANS['C19'] = {
-    'quick': [tree('SORT4m', 4, 5, 2, '{1}', 'K', 'SortMin'), tree('SORT3', 3, 2, 2, '{1}', 'K', 'Sort'), tree('SORTR3', 3, 2, 1, '{1}', 'K', 'SortR')],
+    'quick': [tree('SORT4m', 4, 5, 2, '{1}', 'K', 'SortMin'), tree('SORT3', 3, 2, 2, '{1}', 'K', 'Sort'), tree('SORTR3', 3, 2, 1, '{1}', 'K', 'SortR'), tree('SORTCS4', 4, 2, 1, '{1}', 'K', 'SortCS')],
     'thorough': [tree('SORT4m', 4, 5, 2, '{1}', 'K', 'SortMin'), tree('SORT4', 4, 3, 2, '{1}', 'K', 'Sort'), tree('SORT5', 5, 5, 2, '{1}', 'K', 'SortMin', timeout=3000)],
     'rule': TREE_RULE, 'assumptions': TREE_ASSUME,
     'technique': 'pointer-level transcription of sort_list/sort_object in Tree.tla checked by TLC against "sorted permutation of the same nodes, idempotent, well-formed"; sort is an action of the heap machine so every later edit history is explored; all transitions replayed with full heap comparison (order among equal keys left open)',
@@ -97,11 +97,11 @@ PLANS['C12'] = {
     'level_note': 'bounded universe (width <= 2, depth <= 2, 16 catalogue numbers incl. inf/nan/epsilon neighbours); NumEq table computed by tools/numcat.py; TLC and the driver are trusted',
 }
 # ------------------------------------------------------------------------------------------------ parser
-def parse_run(name, U, units, depth, edits=False, flavour='plain', failinject=False, timeout=2400):
+def parse_run(name, U, units, depth, edits=False, flavour='plain', failinject=False, timeout=2400, extra=''):
     return {'name': name, 'module': 'MC_Parse', 'mode': 'parse', 'flavour': flavour, 'view': 'View', 'invariants': ['InvCase'],
             'constants': {'U': '"%s"' % U, 'MaxUnits': units, 'Edits': 'TRUE' if edits else 'FALSE', 'Emit': 'TRUE',
                           'MaxDepth': depth, 'NestingLimit': depth},
-            'drvargs': '--numobs {outdir}/%s.numobs%s' % (name, ' --failinject' if failinject else ''), 'post': 'numobs', 'timeout': timeout}
+            'drvargs': '--numobs {outdir}/%s.numobs%s%s' % (name, ' --failinject' if failinject else '', extra), 'post': 'numobs', 'timeout': timeout}
 
 def parse_runs(tier):
     if tier == 'quick':
@@ -110,18 +110,20 @@ def parse_runs(tier):
                 parse_run('lit5', 'lit', 5, 1000), parse_run('ws4', 'ws', 4, 1000), parse_run('long4', 'long', 4, 1000),
                 parse_run('edit5', 'tok', 5, 1000, edits=True),
                 parse_run('bigq', 'bigq', 0, 1000), parse_run('allbytes', 'allbytes', 0, 1000),
+                parse_run('bigqdef', 'bigq', 0, 1000, extra=' --defaulthooks'), parse_run('strtable', 'strtable', 0, 1000, extra=' --numsweep 600000'),
                 parse_run('longasan', 'long', 4, 1000, flavour='asan'), parse_run('bigqasan', 'bigq', 0, 1000, flavour='asan')]
     return [parse_run('tok9', 'tok', 9, 4, flavour='limits'), parse_run('nest11', 'nest', 11, 4, flavour='limits'),
             parse_run('str4', 'str', 4, 1000, timeout=5000), parse_run('num8', 'num', 8, 1000),
             parse_run('lit6', 'lit', 6, 1000), parse_run('ws6', 'ws', 6, 1000), parse_run('long6', 'long', 6, 1000),
             parse_run('edit7', 'tok', 7, 1000, edits=True, timeout=5000), parse_run('tok7plain', 'tok', 7, 1000),
             parse_run('big', 'big', 0, 1000), parse_run('allbytes', 'allbytes', 0, 1000),
+            parse_run('bigdef', 'big', 0, 1000, extra=' --defaulthooks'), parse_run('strtablefull', 'strtable', 0, 1000, extra=' --fulltable --numsweep 6000000'),
             parse_run('longasan', 'long', 6, 1000, flavour='asan'), parse_run('bigasan', 'big', 0, 1000, flavour='asan'), parse_run('str3asan', 'str', 3, 1000, flavour='asan')]
 
 PARSE_RULE = ('byte strings grown unit by unit (bytes or tokens) from every still-viable prefix, so the set is closed under truncation; universes: token '
               'sequences, string-literal units (every escape, boundary \\u code points, surrogates, bad hex), number characters, literal letters, BOM/whitespace '
-              'bytes, 62-65 character numbers, every single-byte edit of every accepted text; each case is run through all parse entry points x '
-              '{termination required or not} x {exact-length buffer flush against an inaccessible page, buffer followed by junk, buffer with terminating zero}; '
+              'bytes, 62-65 character numbers, every single-byte edit of every accepted text, large structured texts (incl. escape-dense strings); plus one case that applies the decoder\'s byte table to every string literal of 1-3 copied bytes and sweeps seeded families of number literals past the rounding oracle; each case is run through all parse entry points x '
+              '{termination required (rotating non-zero ints) or not} x {exact-length buffer flush against an inaccessible page, buffer followed by junk, buffer with terminating zero}; '
               'non-trivial = every case; distinct by construction (one TLC state per text)')
 PARSE_ASSUME = ['numeric values of number literals are judged by Python float() (correctly rounded, independent of glibc), not by TLC',
                 'out-of-bounds reads are observed through guard pages and read-only mappings; the specification proves its own reads in bounds',
@@ -139,19 +141,20 @@ PLANS['C03'] = parse_plan('For every enumerated text on which even the lenient d
 PLANS['C10'] = parse_plan('The parse-end, error-position and termination clauses are asserted by TLC on the transcription for every enumerated buffer and flag, and checked on the real calls: end inside the buffer and prefix re-parses to an equal tree, termination success only before a zero byte, error pointer equal to the global one and inside the buffer, NULL after success.',
                           'TLC asserts the end/error/termination clauses on ParseMachine.tla for every enumerated buffer x flag; real calls checked for pointer bounds, prefix re-parse, termination rule, global error pointer')
 # ------------------------------------------------------------------------------------------------ printer
-def print_run(name, tier, flavour='plain', failinject=False):
+def print_run(name, tier, flavour='plain', failinject=False, extra=''):
     return {'name': name, 'module': 'MC_Print', 'mode': 'print', 'flavour': flavour,
             'constants': {'Tier': '"%s"' % tier, 'Emit': 'TRUE', 'MaxDepth': 1000},
-            'drvargs': '--drift {outdir}/%s.drift.ndjson%s' % (name, ' --failinject' if failinject else ''), 'post': 'textcheck', 'timeout': 3000}
+            'drvargs': '--drift {outdir}/%s.drift.ndjson%s%s' % (name, ' --failinject' if failinject else '', extra), 'post': 'textcheck', 'timeout': 3000}
 PRINT_RULE = ('every tree of a finite universe (all scalars incl. boundary numbers and strings with quote, backslash, control, DEL and UTF-8 bytes; all arrays/objects '
-              'of width <= 2 over them with keys incl. empty/quote/newline; depth-3 chains; nested containers in thorough) x {formatted, unformatted}; each is printed through '
-              'Print/PrintUnformatted/PrintBuffered(every prebuffer 0..len+3)/PrintPreallocated(every n 0..len+16) under both allocator configurations; non-trivial = every case; distinct by construction')
+              'of width <= 2 over them with keys incl. empty/quote/newline; depth-3 chains; nested containers in thorough) x {formatted, unformatted} (formatted = rotating non-zero ints); each is printed through '
+              'Print/PrintUnformatted/PrintBuffered(every prebuffer 0..len+3)/PrintPreallocated(every n 0..len+16) under both allocator configurations, every member also printed in place (with siblings); '
+              'plus one case that applies the specification\'s byte-wise escape table to every string of 1-3 non-zero bytes (16.6 million in thorough, an 8.7 million subset in quick); non-trivial = every case; distinct by construction')
 PRINT_ASSUME = ['number texts come from the catalogue generated with Python\'s correctly rounded formatting; the catalogue generator asserts read-back within DBL_EPSILON, exactness of integers below 10^15 and the print/parse fixed point for every catalogue number',
                 'writes outside a caller buffer are observed with an inaccessible page after it and a canary area before it']
 PRINT_NOTE = 'bounded tree universe and number catalogue; TLC, the driver and the catalogue generator are trusted; a text that differs from the predicted bytes is judged by round trip in the driver and is recorded for validation by the TLA+ grammar'
 def print_plan(what, tech, fail=False, huge=False):
-    return {'quick': [print_run('printQ', 'quick', failinject=fail), print_run('printBig', 'big', failinject=fail)] + ([print_run('printHuge', 'huge')] if huge else []),
-            'thorough': [print_run('printT', 'thorough', failinject=fail), print_run('printBig', 'big', failinject=fail), print_run('printHuge', 'huge'), print_run('printQasan', 'quick', flavour='asan', failinject=fail), print_run('printBigasan', 'big', flavour='asan', failinject=fail)],
+    return {'quick': [print_run('printQ', 'quick', failinject=fail), print_run('printBig', 'big', failinject=fail), print_run('escTable', 'table')] + ([print_run('printHuge', 'huge')] if huge else []),
+            'thorough': [print_run('printT', 'thorough', failinject=fail), print_run('escTableFull', 'table', extra=' --fulltable'), print_run('printBig', 'big', failinject=fail), print_run('printHuge', 'huge'), print_run('printQasan', 'quick', flavour='asan', failinject=fail), print_run('printBigasan', 'big', flavour='asan', failinject=fail)],
             'rule': PRINT_RULE, 'assumptions': PRINT_ASSUME, 'technique': tech, 'level_text': what, 'level_note': PRINT_NOTE}
 PLANS['C04'] = print_plan('TLC proves for every tree x format x entry point x initial buffer size x growth strategy that the buffer machine yields Render(v), that Render(v) is an RFC text denoting v (so it parses back to v), and the real library is run over the same product: texts compared byte for byte, re-parsed, re-printed (fixed point), across allocator configurations.',
                           'TLC checks the printbuffer step machine (ensure/growth/update_offset, all entry points, all prebuffers, realloc or not) against declarative Render and the RFC grammar; real texts compared with the prediction, re-parsed and re-printed', huge=True)
